@@ -112,3 +112,17 @@ CASES += [
     {"name": "index of a shift found by an explicit loop with ==", "kind": "twin", "edits": [
         (_HO10, "        return self._shifts.index(shift)\n", "        for i_, s_ in enumerate(self._shifts):\n            if s_ == shift:\n                return i_\n        raise ValueError(\"shift not stored\")\n", 1)]},
 ]
+
+_MOL9 = "quantarhei/builders/molecules.py"
+_AM_OLD = "            mod.set_Molecule(self)\n            self.modes.append(mod)\n            self.nmod += 1\n"
+CASES += [
+    {"name": "a mode that already lives on a molecule is put on the list and the method is left before the counter (seeded change of round 9)",
+     "kind": "mutant", "rule": "C10-K", "edits": [(_MOL9, _AM_OLD,
+        "            self.modes.append(mod)\n            if mod.monomer_set and (mod.nel == self.nel):\n                return\n            mod.set_Molecule(self)\n            self.nmod += 1\n", 1)]},
+    {"name": "the counter of modes is advanced only for the first mode", "kind": "mutant", "rule": "C10-K", "edits": [(_MOL9, _AM_OLD,
+        "            mod.set_Molecule(self)\n            self.modes.append(mod)\n            if self.nmod == 0:\n                self.nmod += 1\n", 1)]},
+    {"name": "the counter of modes is set from the length of the list", "kind": "twin", "edits": [(_MOL9, _AM_OLD,
+        "            mod.set_Molecule(self)\n            self.modes.append(mod)\n            self.nmod = len(self.modes)\n", 1)]},
+    {"name": "counter first, list second", "kind": "twin", "edits": [(_MOL9, _AM_OLD,
+        "            mod.set_Molecule(self)\n            self.nmod += 1\n            self.modes.append(mod)\n", 1)]},
+]
